@@ -84,7 +84,26 @@ def correspondence(ctx):
     for st, d in par.pmap(c07._corr_chunk, [(ctx.seed * 113 + j, 30 if ctx.tier == "quick" else 300) for j in range(ctx.jobs)], ctx.jobs):
         pst.update(st)
         dis += d
-    return {"formula_constructions": dict(stats), "operator_strings": dict(pst),
+    # the recursion of the step-wise translation: hypotheses of the model TelModel/TranslateRec.lean on real runs
+    rr = random.Random(ctx.seed * 127 + 5)
+    nrec = 60 if ctx.tier == "quick" else 900
+    rtexts = ["#program always. {a}. :- not &del { * ? a .>? * (* a) .>? a }.",                 # D17
+              "#program always. {a;b}. w0 :- not not &del { * (? a) .>? b }.",
+              "#program always. {a;b}. w0 :- not not &del { * (* (? a) + ? b) .>* * (? a) .>? b }."]
+    for i in range(nrec):
+        if i % 3 == 0:
+            rtexts.append(oracles.witness_program([gen.gen_dform_any(rr, rr.randint(1, 2), ["a", "b"], pdepth=rr.randint(1, 3))], ["a", "b"], "del"))
+        elif i % 3 == 1:
+            f = gen.gen_dform_any(rr, 1, ["a", "b"], pdepth=2)
+            rtexts.append(oracles.witness_program([("dia", ("star", f[1]), f)] if f[0] in ("dia", "box") else [f], ["a", "b"], "del"))   # iteration over iteration
+        else:
+            rtexts.append(oracles.witness_program([gen.gen_sform(rr, 3, ["a", "b"]) for _ in range(2)], ["a", "b"], "tel"))
+    rec = {}
+    for st, d in par.pmap(impl_theory.recursion_chunk, [(c, 2) for c in par.chunks(rtexts, ctx.jobs)], ctx.jobs):
+        for k, v in st.items():
+            rec[k] = rec.get(k, 0) + v
+        dis += d
+    return {"formula_constructions": dict(stats), "operator_strings": dict(pst), "translate_recursion": rec,
             "sample": {"program": "#program always. {a;b;p(1)}. q(1). :- &tel { ((1-2) > a) }."}}, dis
 
 def cli_outcome(text):
